@@ -77,7 +77,7 @@ def _ver_unit(args):
             fails.append(("C01|verify|%s|expected=%s|got=%s" % (cls, want, got),
                           "verify(Q=%s, z=%d, (r=%d, s=%d)) on curve %s (%s): spec %s, pycoin %s" % (list(Qq), zz, r, s, ck, variant, want, got),
                           {"curve": ck, "Q": list(Qq), "z": zz, "r": r, "s": s, "expected": want, "got": got}))
-    grid = list(range(-1, n + 2)) + [2 * n - 1, 2 * n] + ([] if quick or n > 31 else list(range(n + 2, 2 * n - 1)))
+    grid = list(range(-1, n + 2)) + [2 * n - 1, 2 * n] + ([] if quick or n > 19 else list(range(n + 2, 2 * n - 1)))
     for r in grid:
         for s in grid:
             check(Qs[0], z, r, s, (r, s) in accset, "grid")
@@ -362,7 +362,7 @@ def run(ctx):
 
     # ---- 2. model
     if _only(ctx, "model"):
-        cfgs = ["p11", "p23_q", "p43_q", "p83_q"] if q else ["p11", "p23", "p43", "p67", "p79", "p83", "p103"]
+        cfgs = ["p11", "p23_q", "p43_q"] if q else ["p11", "p23", "p43", "p67", "p79", "p83", "p103"]
         tlc_many(ctx, [dict(module="MC_ECDSA", cfg="MC_ECDSA_" + c, workers=4 if q else 3, timeout=3000) for c in cfgs], threads=4 if q else 7)
 
     # ---- 3. tables
